@@ -8,6 +8,13 @@ open Phil
 def tokErrJ : TokErr → J
   | .missingClosingQuote l => (Err.runtime "missing_closing_quote" (some l)).toJ
 
+/-- index paths of all definitions, pre-order -/
+partial def defPaths (objs : List Obj) (pfx : List Nat) : List (List Nat) :=
+  (objs.zipIdx.map fun (o, i) =>
+    match o with
+    | .defn _ _ => [pfx ++ [i]]
+    | .scope _ kids => defPaths kids (pfx ++ [i])).flatten
+
 def handle (req : J) : J :=
   match req with
   | .arr (.str "tokv" :: t :: _) =>
@@ -62,6 +69,19 @@ def handle (req : J) : J :=
   | .arr [.str "path_score", home, src, tgt] =>
     (match (match home with | .null => some none | h => h.getStr.map some), src.getStr, tgt.getStr with
      | some home, some src, some tgt => okJ (.num (getPathScore home src tgt))
+     | _, _, _ => .str "bad-request")
+  | .arr [.str "resolve", t, envj, diff] =>
+    (match t.getStr, envj.getArr, diff.getBool with
+     | some text, some envl, some diff =>
+       let tbl : List (Str × Str) := envl.filterMap (fun e => match e with
+         | .arr [k, v] => (match k.getStr, v.getStr with | some k, some v => some (k, v) | _, _ => none)
+         | _ => none)
+       let env : Env := fun n => (tbl.find? (·.1 == n)).map (·.2)
+       (match parseObjs text with
+        | .error e => .arr [.str "parse-failed", e.toJ]
+        | .ok root =>
+          okJ (.arr ((defPaths root []).map fun p =>
+            resJ (fun ws => J.arr (ws.map Word.toJ)) (resolveAt env root p diff))))
      | _, _, _ => .str "bad-request")
   | _ => .str "bad-op"
 
